@@ -246,25 +246,28 @@ structure Cfg where
   ts : List Thread
   deriving Repr, Inhabited
 
+/-- a thread that is between two calls starts its next call; `none` = nothing left to do -/
+def Thread.norm (t : Thread) : Option Thread :=
+  match t.pc, t.todo with
+  | .idle, [] => none
+  | .idle, op :: rest => some { t with pc := start op, todo := rest }
+  | _, _ => some t
+
+/-- the thread after its step -/
+def Thread.after (t : Thread) : After → Thread
+  | .cont pc' => { t with pc := pc' }
+  | .done r => { pc := .idle, todo := t.todo, rets := t.rets ++ [r] }
+
 /-- thread `i` performs its next shared-memory step (a finished or missing thread does nothing) -/
 def step (c : Cfg) (i : Nat) : Cfg × Option String :=
   match c.ts[i]? with
   | none => (c, none)
   | some t =>
-    let pcTodo : Option (Pc × List COp) :=
-      match t.pc, t.todo with
-      | .idle, [] => none
-      | .idle, op :: rest => some (start op, rest)
-      | pc, todo => some (pc, todo)
-    match pcTodo with
+    match t.norm with
     | none => (c, none)
-    | some (pc, todo) =>
-      let (sh', after, e) := tstep c.sh pc
-      let t' : Thread :=
-        match after with
-        | .cont pc' => { t with pc := pc', todo := todo }
-        | .done r => { pc := .idle, todo := todo, rets := t.rets ++ [r] }
-      ({ sh := sh', ts := c.ts.set i t' }, some ("t" ++ toString i ++ ":" ++ e))
+    | some tn =>
+      let r := tstep c.sh tn.pc
+      ({ sh := r.1, ts := c.ts.set i (tn.after r.2.1) }, some ("t" ++ toString i ++ ":" ++ r.2.2))
 
 def run (c : Cfg) : List Nat → Cfg
   | [] => c
